@@ -2,6 +2,7 @@
 from __future__ import annotations
 
 import ast
+import re
 import time
 
 import z3
@@ -141,6 +142,11 @@ class ContractDB:
         self.const_overrides = {}
         self.exports = {}
         self.total_getattr = set()
+        # {kind: [type names]}: isinstance tags of an abstract kind that exclude one another
+        self.exclusive_types = {}
+        # {(kind, operation): handler}: semantics of builtin operations on values of an abstract kind
+        # operations: getitem(ex, st, v, idx), dict(ex, st, v), iter(ex, st, v), contains(ex, st, v, item)
+        self.opaque_ops = {}
         # abstract kinds whose instances have no __bool__/__len__ (always truthy)
         self.always_truthy = {"type", "XmlMeta", "XmlVar", "XmlNode", "Builder", "Converter", "ParserConfig", "XmlContext",
                               "ClassType", "Logger", "Match", "Model"}
@@ -1660,6 +1666,13 @@ def _check_ensures(ex, st, c: Contract, result, env):
     for name, clause in c.ensures:
         t = eval_spec(ex, st, clause, e, what=f"{c.key}.{name}")
         ex.oblige(st, f"{c.qualname}.ensures.{name}", "ensures", t, info={"clause": clause, "result": result})
+    # what callers assume instead of ``ensures`` must hold of the body as well; only "the result is a
+    # function of these arguments" (result == uf(...)) is taken as the purity assumption it is
+    for i, clause in enumerate(c.call_ensures or []):
+        if re.match(r"\s*result(\[\d+\])? == uf\(", clause):
+            continue
+        t = eval_spec(ex, st, clause, e, what=f"{c.key}.call-view{i}")
+        ex.oblige(st, f"{c.qualname}.ensures.call-view{i}", "ensures", t, info={"clause": clause, "result": result})
 
 
 def _check_raise(ex, st, c: Contract, exc: ExcVal, env):
@@ -1670,7 +1683,7 @@ def _check_raise(ex, st, c: Contract, exc: ExcVal, env):
             break
     if allowed is None:
         ex.oblige(st, f"{c.qualname}.raises-only[{exc.cls}]", "raises", z3.BoolVal(False),
-                  info={"clause": f"raises only {sorted(c.raises)}", "raised": exc.cls})
+                  info={"clause": f"raises only {sorted(c.raises)}", "raised": exc.cls, "where": getattr(exc, "where", None)})
         return
     cond = c.raises[allowed]
     if cond is True:
